@@ -117,7 +117,7 @@ def run(tier, out):
 def stress(out, wd, rng):
     """Free-running producer / consumer on OS threads; per-side logs are merged by the global
     sequence number taken while the call holds the channel's lock (see harness)."""
-    res = core.run_harness("h_core", ["bytechan-stress", str(rng.randrange(1 << 30)), "40"])
+    res = core.run_harness("h_core", ["bytechan", "stress", str(rng.randrange(1 << 30)), "40"])
     n = 0
     for line in res.splitlines():
         o = json.loads(line)
